@@ -18,11 +18,54 @@ import (
 	"sync"
 	"time"
 
+	"mosn.io/api"
+	v2 "mosn.io/mosn/pkg/config/v2"
+	"mosn.io/mosn/pkg/types"
+	"mosn.io/mosn/pkg/upstream/cluster"
+
 	"verif/harness/lab"
 )
 
 func init() {
 	lab.Register("c17-engine", c17Engine)
+	cluster.RegisterLBType("LB_VERIF", newVerifLB)
+}
+
+// verifLB: round robin that records which request asked for a host (by token).
+type verifLB struct {
+	inner types.LoadBalancer
+}
+
+var c17LB struct {
+	mu    sync.Mutex
+	calls map[string]int
+}
+
+func newVerifLB(info types.ClusterInfo, hosts types.HostSet) types.LoadBalancer {
+	rr := v2.Cluster{Name: info.Name(), LbType: v2.LB_ROUNDROBIN}
+	return &verifLB{inner: cluster.NewLoadBalancer(cluster.NewClusterInfo(rr), hosts)}
+}
+
+func (l *verifLB) ChooseHost(ctx types.LoadBalancerContext) types.Host {
+	if ctx != nil {
+		if tok, _ := tokenOf(ctx.DownstreamHeaders()); tok != "" {
+			c17LB.mu.Lock()
+			if c17LB.calls == nil {
+				c17LB.calls = map[string]int{}
+			}
+			c17LB.calls[tok]++
+			c17LB.mu.Unlock()
+		}
+	}
+	return l.inner.ChooseHost(ctx)
+}
+func (l *verifLB) IsExistsHosts(m api.MetadataMatchCriteria) bool { return l.inner.IsExistsHosts(m) }
+func (l *verifLB) HostNum(m api.MetadataMatchCriteria) int        { return l.inner.HostNum(m) }
+
+func c17LBCalls(tok string) int {
+	c17LB.mu.Lock()
+	defer c17LB.mu.Unlock()
+	return c17LB.calls[tok]
 }
 
 type hop struct {
@@ -137,6 +180,7 @@ func c17Engine(c *lab.Ctx) {
 		add(c17Route{Kind: "forward", Timeout: 3000, HasRetry: true, RetryOn: true, NumRetries: 4, TryTimeout: 300})
 		add(c17Route{Kind: "forward", Timeout: 3000, HasRetry: true, RetryOn: true, NumRetries: 5})
 		add(c17Route{Kind: "forward", Timeout: 3000, HasRetry: true, RetryOn: false, NumRetries: 2})
+		add(c17Route{Kind: "forward", Timeout: 3000, HasRetry: true, RetryOn: false, NumRetries: 2, TryTimeout: 300})
 		add(c17Route{Kind: "forward", Timeout: 3000, HasRetry: true, RetryOn: true, NumRetries: 2, StatusCodes: []int{502}})
 		add(c17Route{Kind: "forward", Timeout: 3000}) // no retry policy at all
 		routesBy[p] = rs
@@ -207,7 +251,7 @@ func c17Engine(c *lab.Ctx) {
 		}
 		return out
 	}
-	e, err := newEngineWith(c, protos, mkRoutes, nil, nil, func(proto string, vh jmap, rc jmap) {
+	e, err := newEngineWith(c, protos, mkRoutes, func(name string) jmap { return jmap{"lb_type": "LB_VERIF"} }, nil, func(proto string, vh jmap, rc jmap) {
 		if len(vhReqAdd) > 0 {
 			vh["request_headers_to_add"] = hopsJSON(vhReqAdd)
 		}
@@ -450,7 +494,7 @@ func c17Engine(c *lab.Ctx) {
 					case r.Kind == "forward" && !r.HasRetry && (r.Timeout == 400 || r.Timeout == 1600) && rep < 2:
 						// ---- timeout sources: route T vs request header vs protocol-supplied
 						c17Timeouts(c, e, cl, proto, r, tok)
-					case r.HasRetry || (r.Kind == "forward" && r.Timeout == 3000):
+					case (r.HasRetry || (r.Kind == "forward" && r.Timeout == 3000)) && rep == 0:
 						c17Retries(c, e, cl, proto, r, rng, tok)
 						_ = sig
 					}
@@ -562,7 +606,12 @@ func c17Retries(c *lab.Ctx, e *engine, cl client, proto string, r c17Route, rng 
 	if proto == "Http2" {
 		seqs = append(seqs, "half|ok")
 	}
-	plan := seqs[rng.Intn(len(seqs))]
+	for _, plan := range seqs { // every outcome sequence for every policy (systematic, not sampled)
+		c17RetryOne(c, e, cl, proto, r, plan, tok)
+	}
+}
+
+func c17RetryOne(c *lab.Ctx, e *engine, cl client, proto string, r c17Route, plan string, tok func(string) string) {
 	t := tok(proto)
 	c.Case("c17 retry %s route=%s policy(on=%v n=%d codes=%v try=%d) plan=%s token=%s", proto, r.Key, r.RetryOn, r.NumRetries, r.StatusCodes, r.TryTimeout, plan, t)
 	ev := cl.do(reqFor(proto, r.Key, t, plan))
@@ -611,13 +660,11 @@ func c17Retries(c *lab.Ctx, e *engine, cl client, proto string, r c17Route, rng 
 		c.Violation("retry-only-under-listed-conditions", "C17/retry/retried-although-not-listed/"+proto+"/"+planClass(first),
 			fmt.Sprintf("%s: first attempt outcome %q is not a configured retry condition (%v), yet %d attempts were made", proto, first, wit["policy"], attempts), wit)
 	}
-	// fresh host per retry: sequential client + round robin over two healthy hosts must alternate
-	for i := 1; i < len(ups); i++ {
-		if ups[i].Upstream == ups[i-1].Upstream {
-			c.Violation("retry-on-freshly-chosen-host", "C17/retry/same-host-again/"+proto,
-				fmt.Sprintf("%s: attempt %d went to %s again although the other healthy host exists (sequential client, round robin)", proto, i+1, ups[i].Upstream), wit)
-			break
-		}
+	// fresh host per attempt: the harness-registered balancer (public RegisterLBType API) records every ChooseHost
+	// call with the request token; every upstream attempt must be preceded by its own host selection
+	if picks := c17LBCalls(t); picks < attempts {
+		c.Violation("retry-on-freshly-chosen-host", "C17/retry/attempt-without-host-selection/"+proto,
+			fmt.Sprintf("%s: %d upstream attempts but the load balancer was asked only %d time(s) for this request: a retry reused the previous host instead of choosing again", proto, attempts, picks), wit)
 	}
 	c.Distinct(fmt.Sprintf("%s|retry|on=%v|n=%d|%s|attempts=%d", proto, r.RetryOn, r.NumRetries, planClass(plan), attempts))
 	if ev.Kind != "response" {
